@@ -19,6 +19,9 @@ fn main() {
         ("c10", "steps") => yv::c10::steps(&args),
         ("c07", "record") => yv::c07::record(&args),
         ("c08", "record") => yv::c08::record(&args),
+        ("uf", "replay") => yv::cx::uf_replay(&args),
+        ("uf", "record") => yv::cx::uf_record(&args),
+        ("topsort", "record") => yv::cx::topsort_record(&args),
         ("c20", "record") => yv::c20::record(&args),
         ("c20", "replay") => yv::c20::replay(&args),
         ("c04", "record") => yv::c04::record(&args),
